@@ -243,3 +243,41 @@ Proof.
         change (128 ^ N.of_nat 10) with 1180591620717411303424. lia. }
       rewrite Hg in He. cbn [app] in He. injection He as He _. lia.
 Qed.
+
+(* the decoder does not look beyond the terminating byte: appending bytes changes nothing *)
+Lemma varnat_decode_go_app bs : forall acc r v k x, varnat_decode_go bs acc r = Some (v, k) ->
+  varnat_decode_go (bs ++ x) acc r = Some (v, k).
+Proof.
+  induction bs as [|b t IH]; intros acc r v k x H; cbn [varnat_decode_go app] in *; [discriminate|].
+  destruct (two64 <=? acc * 128 + b mod 128); [discriminate|].
+  destruct (b <? 128); [exact H|]. now apply IH.
+Qed.
+
+Lemma varnat_decode_app bs v k x : varnat_decode bs = Some (v, k) -> varnat_decode (bs ++ x) = Some (v, k).
+Proof. apply varnat_decode_go_app. Qed.
+
+(* the mathematical value of the first n groups *)
+Fixpoint gval (bs : bytes) (acc : N) (n : nat) {struct n} : N :=
+  match n, bs with
+  | S n', b :: t => gval t (acc * 128 + b mod 128) n'
+  | _, _ => acc
+  end.
+
+(* soundness: an accepted encoding yields exactly the value of its groups, which is a u64;
+   read contrapositively: a terminated group sequence worth 2^64 or more is refused *)
+Theorem varnat_decode_value bs : forall acc r v k, varnat_decode_go bs acc r = Some (v, k) ->
+  v = gval bs acc (k - r) /\ gval bs acc (k - r) < two64.
+Proof.
+  induction bs as [|b t IH]; intros acc r v k H; cbn [varnat_decode_go] in H; [discriminate|].
+  destruct (two64 <=? acc * 128 + b mod 128) eqn:E1; [discriminate|].
+  destruct (b <? 128) eqn:E2.
+  - injection H as <- <-. replace (S r - r)%nat with 1%nat by lia. cbn [gval]. split; [reflexivity|lia].
+  - pose proof (varnat_decode_go_spec _ _ _ _ _ H) as (_ & Hk & _).
+    replace (k - r)%nat with (S (k - S r)) by lia. cbn [gval]. now apply IH.
+Qed.
+
+(* the test vector of tests/address.rs (variable_nat_decode_too_big) *)
+Example varnat_too_big : varnat_decode [129; 255; 255; 255; 255; 255; 255; 255; 255; 255; 127] = None.
+Proof. vm_compute. reflexivity. Qed.
+Example varnat_max : varnat_decode (varnat_encode 18446744073709551615) = Some (18446744073709551615, 10%nat).
+Proof. vm_compute. reflexivity. Qed.
